@@ -1,5 +1,6 @@
 (* stdin: one job per line:  n | i j i j ...   (entries of the pattern, 0-based, in the FINAL numbering)
-   stdout: "S c0 c1 ... | L c0 c1 ..."  : column counts of the filled A^T+A (diagonal included) and of the filled A *)
+   stdout: "S c0 c1 ... | L c0 c1 ... | R c0 c1 ..."  : column counts of the filled A^T+A (diagonal included), of the filled A
+   (diagonal pivots) and of George & Ng's row-merge pattern (what qrnzcnt predicts for a zero-free diagonal) *)
 open Symfill_model
 let rec nat_of_int (i : int) : nat = if i <= 0 then O else S (nat_of_int (i - 1))
 let rec int_of_nat = function O -> 0 | S n -> 1 + int_of_nat n
@@ -13,8 +14,8 @@ let () =
         let rec pairs = function a :: b :: t -> (nat_of_int (int_of_string a), nat_of_int (int_of_string b)) :: pairs t | _ -> [] in
         let ents = pairs toks in
         let nn = nat_of_int n in
-        let s = sym_colcounts nn ents and l = lu_colcounts nn ents in
+        let s = sym_colcounts nn ents and l = lu_colcounts nn ents and r = rm_colcounts nn ents in
         let pr l = String.concat " " (List.map (fun x -> string_of_int (int_of_nat x)) l) in
-        Printf.printf "S %s | L %s\n" (pr s) (pr l)
+        Printf.printf "S %s | L %s | R %s\n" (pr s) (pr l) (pr r)
     | _ -> print_endline "ERR"
   done with End_of_file -> ()
